@@ -1057,39 +1057,41 @@ class Frame(object):
             self.waterfall.header['source_name'] = self.source_name
             self.waterfall.header['rawdatafile'] = 'Synthetic'
 
-            container_attr = {
-                't_begin': 0,
-                't_end': self.tchans,
-                'file_size_bytes': self.tchans * self.fchans * self.waterfall.header['nbits'] / 8,
-                'n_channels_in_file': self.fchans,
-                'n_ints_in_file': self.tchans,
-                'file_shape': (self.tchans, 1, self.fchans),
-                'f_end': self.fmax * 1e-6,
-                'f_begin': self.fmin * 1e-6,
-                'f_stop': self.fmax * 1e-6,
-                'f_start': self.fmin * 1e-6,
-                't_start': 0,
-                't_stop': self.tchans,
-                'selection_shape': (self.tchans, 1, self.fchans),
-                'chan_start_idx': 0,
-                'chan_stop_idx': self.fchans,
-            }
-            for key, value in container_attr.items():
-                setattr(self.waterfall.container,
-                        key,
-                        value)
+        # Keep the Waterfall's description of itself in step with the frame, also when the
+        # Waterfall was inherited from a file or a parent frame (blimpy writes from these)
+        container_attr = {
+            't_begin': 0,
+            't_end': self.tchans,
+            'file_size_bytes': self.tchans * self.fchans * self.waterfall.header['nbits'] / 8,
+            'n_channels_in_file': self.fchans,
+            'n_ints_in_file': self.tchans,
+            'file_shape': (self.tchans, 1, self.fchans),
+            'f_end': self.fmax * 1e-6,
+            'f_begin': self.fmin * 1e-6,
+            'f_stop': self.fmax * 1e-6,
+            'f_start': self.fmin * 1e-6,
+            't_start': 0,
+            't_stop': self.tchans,
+            'selection_shape': (self.tchans, 1, self.fchans),
+            'chan_start_idx': 0,
+            'chan_stop_idx': self.fchans,
+        }
+        for key, value in container_attr.items():
+            setattr(self.waterfall.container,
+                    key,
+                    value)
 
-            wat_attr = {
-                'n_channels_in_file': self.fchans,
-                'n_ints_in_file': self.tchans,
-                'file_shape': (self.tchans, 1, self.fchans),
-                'file_size_bytes': self.tchans * self.fchans * self.waterfall.header['nbits'] / 8,
-                'selection_shape': (self.tchans, 1, self.fchans),
-            }
-            for key, value in wat_attr.items():
-                setattr(self.waterfall,
-                        key,
-                        value)
+        wat_attr = {
+            'n_channels_in_file': self.fchans,
+            'n_ints_in_file': self.tchans,
+            'file_shape': (self.tchans, 1, self.fchans),
+            'file_size_bytes': self.tchans * self.fchans * self.waterfall.header['nbits'] / 8,
+            'selection_shape': (self.tchans, 1, self.fchans),
+        }
+        for key, value in wat_attr.items():
+            setattr(self.waterfall,
+                    key,
+                    value)
 
         # Format data correctly for saving into filterbank format
         self.waterfall.data = self.data[:, np.newaxis, :]
